@@ -657,6 +657,43 @@ func WGWait(wg *sync.WaitGroup, site string) {
 // is the current task; this helper exists to make that explicit.
 func setCurTaskIfMine(i int) { setCurTask(i) }
 
+// --- method values ----------------------------------------------------------------------------------
+//
+// `unlock := mu.Unlock` (or `return mu.Unlock`, `defer f(mu.Lock)`) takes a method VALUE: no call the rewriter
+// could redirect. The receiver expression is wrapped instead: `simrt.MV(&mu, site).Unlock` is a method value of a
+// view whose methods are the simulated operations.
+
+type MutexView struct {
+	m    mutexLike
+	site string
+}
+
+func MV(m mutexLike, site string) MutexView { return MutexView{m, site} }
+func (v MutexView) Lock()                   { Lock(v.m, v.site) }
+func (v MutexView) Unlock()                 { Unlock(v.m, v.site) }
+func (v MutexView) TryLock() bool           { return TryLock(v.m, v.site) }
+
+type RWMutexView struct {
+	m    rwMutexLike
+	site string
+}
+
+func RWV(m rwMutexLike, site string) RWMutexView { return RWMutexView{m, site} }
+func (v RWMutexView) Lock()                      { Lock(v.m, v.site) }
+func (v RWMutexView) Unlock()                    { Unlock(v.m, v.site) }
+func (v RWMutexView) TryLock() bool              { return TryLock(v.m, v.site) }
+func (v RWMutexView) RLock()                     { RLock(v.m, v.site) }
+func (v RWMutexView) RUnlock()                   { RUnlock(v.m, v.site) }
+func (v RWMutexView) TryRLock() bool             { return TryRLock(v.m, v.site) }
+
+// RLocker replaces rw.RLocker(): a sync.Locker whose Lock / Unlock are the simulated RLock / RUnlock.
+func (v RWMutexView) RLocker() sync.Locker { return rlockerView(v) }
+
+type rlockerView RWMutexView
+
+func (v rlockerView) Lock()   { RLock(v.m, v.site) }
+func (v rlockerView) Unlock() { RUnlock(v.m, v.site) }
+
 // --- sync.Once -------------------------------------------------------------------------------------
 //
 // once.Do(f) blocks callers for real while another goroutine is inside f. If f reaches a scheduling
